@@ -479,8 +479,14 @@ class TDict(Ty):
     def wf(self, t):
         # the ghost size is the number of keys: in particular no key is present when it is 0
         k = z3.Const(fresh_name("wk"), self.key.sort())
-        return [self.size(t) >= 0,
-                z3.ForAll([k], z3.Implies(z3.Select(self.dom(t), k), self.size(t) > 0), patterns=[z3.Select(self.dom(t), k)])]
+        out = [self.size(t) >= 0,
+               z3.ForAll([k], z3.Implies(z3.Select(self.dom(t), k), self.size(t) > 0), patterns=[z3.Select(self.dom(t), k)])]
+        # the values of present keys are well-formed values of their type (e.g. sequences have a length >= 0)
+        vk = z3.Select(self.vals(t), k)
+        vw = [w for w in self.val.wf(vk) if not z3.is_true(w)]
+        if vw:
+            out.append(z3.ForAll([k], z3.Implies(z3.Select(self.dom(t), k), z3.And(*vw)), patterns=[vk]))
+        return out
 
     def empty(self):
         return self.mk(z3.K(self.key.sort(), z3.BoolVal(False)),
